@@ -38,6 +38,26 @@ type Val struct {
 	Env []Val
 	Tup []Val
 	Ty  types.Type
+	// Alts: the value is one of several closures, selected by path conditions (phi of function values)
+	Alts []FnAlt
+}
+
+// FnAlt is one alternative of a function-valued phi.
+type FnAlt struct {
+	Cond Term
+	Fn   *ssa.Function
+	Env  []Val
+}
+
+// fnAlts lists the closures a value may denote (a single unconditional one for plain closures).
+func (v Val) fnAlts() []FnAlt {
+	if len(v.Alts) > 0 {
+		return v.Alts
+	}
+	if v.Fn != nil {
+		return []FnAlt{{Cond: True, Fn: v.Fn, Env: v.Env}}
+	}
+	return nil
 }
 
 type deferEntry struct {
